@@ -9,7 +9,8 @@ META = {
     'C01': {
         'level': 'Decides the text-conservation discipline on every control-flow path: every token construction takes a '
                  'prefix accumulator (TOK-1), zero-width tokens are empty (TOK-2), the tokenizer cannot leave before the '
-                 'ENDMARKER epilogue (TOK-5), every token is consumed exactly once by _add_token / error_recovery with its '
+                 'ENDMARKER epilogue (TOK-5), every exit of the per-line scan loop is at the end of the line or stores the '
+                 'rest of the physical line (TOK-10), every token is consumed exactly once by _add_token / error_recovery with its '
                  'fields reaching the leaf attributes they belong to (PAR-1), reductions keep all children (PAR-0), '
                  '_stack_removal deletes exactly what it gathered (PAR-7), convert_node drops exactly the INDENT/DEDENT that '
                  'every grammar puts at suite[1] / suite[-1] (PAR-8, GR-6), get_code is prefix+value joined in order '
@@ -54,7 +55,9 @@ META = {
                  'error leaf / Param / leaf classes are constructed only in their sanctioned functions (PAR-4, resolved '
                  'constructor calls incl. node_map / leaf_map tables), parser state is forced only by the two enumerated '
                  'recovery shortcuts under their guards (PAR-5), node_map keys are rule names and the classes report that '
-                 'type (GR-7), INDENT/DEDENT only in suite at [1]/[-1] (GR-6, PAR-8). Does not decide that the children of a '
+                 'type (GR-7), convert_node builds the node of the nonterminal it was called with (PAR-12) and Keyword/Name '
+                 'leaves are decided on the token text itself (PAR-11), INDENT/DEDENT only in suite at [1]/[-1] (GR-6, PAR-8). '
+                 'Does not decide that the children of a '
                  'node are a sentence of its rule.',
         'note': _TB,
         'technique': 'who-may-construct / dominance rules on resolved call sites + grammar-table agreement',
@@ -98,7 +101,9 @@ META = {
                  'field), and the language they generate is included in the language prefix.split_prefix tiles, every '
                  'recognised part having a type (RX-1, automata inclusion with shortest witness); whitespace classes agree '
                  '(RX-9); INDENT/DEDENT pushes and pops are paired with their tokens (TOK-4); exactly one ENDMARKER, last '
-                 '(TOK-5); scan-loop progress (TOK-6). True positions are not decided.',
+                 '(TOK-5); scan-loop progress (TOK-6, TOK-9), the rest of a line is kept when the scan is left (TOK-10); no '
+                 'tokenizer state outlives a call - no shared write, no mutated default reachable from tokenize / '
+                 'tokenize_lines (EFF-1). True positions are not decided.',
         'note': _TB + 'Regexes are recovered by constant-folding tokenize.py / prefix.py, never by importing them.',
         'technique': 'dataflow into token fields + regular-language inclusion (epsilon-NFA product, shortest witness)',
     },
@@ -134,7 +139,8 @@ META = {
                  'error finder; every error leaf reaches an issue-adding call and error nodes are reported (NORM-1/2); every '
                  'registered rule pairs 901/"SyntaxError: " or 903/"IndentationError: " (NORM-3); first issue per line, one '
                  'Issue per kept entry (NORM-4); no tree attribute store and no set iteration reachable from the walk '
-                 '(EFF-2/4). Implicit exceptions depending on tree invariants and position ranges are not decided.',
+                 '(EFF-2/4), no write to shared objects reachable from Grammar.iter_errors (EFF-1: a finder, rule instance or '
+                 'table cannot carry state from one listing to the next). Implicit exceptions depending on tree invariants and position ranges are not decided.',
         'note': _TB,
         'technique': 'definite assignment + call conformance + CFG path rules + effect analysis on the call graph',
     },
@@ -168,7 +174,9 @@ META = {
         'level': 'Decides, for every crash point and file content, that no exception of the file system or of unpickling '
                  'raised inside load_module / try_to_save_module and the clean-up they trigger can escape to Grammar.parse '
                  '(EXC-1: handler coverage + interprocedural propagation with a frozen may-raise table), and that writer and '
-                 'reader use the same path expression and the writer truncates (CACHE-4). "Returns the tree of the current '
+                 'reader use the same path expression and the writer puts new content in place - truncating write or a '
+                 'freshly written temporary moved onto the path (CACHE-4); no local of cache.py can be read unbound in a '
+                 'handler or clean-up path (DA). "Returns the tree of the current '
                  'content" and the atime-based in-use clause are not decided.',
         'note': _TB + 'May-raise table for ~12 stdlib calls (pickle.load: any Exception, as documented).',
         'technique': 'exception-escape analysis (handler coverage over the builtin exception hierarchy, call-graph propagation)',
@@ -178,7 +186,8 @@ META = {
                  'only reachable writes to shared objects (module globals, class-level containers, grammar/table/config '
                  'instances, values obtained from them, mutable defaults) are two reasoned write-once memos (EFF-1), no '
                  'process-global effect call is reachable (EFF-3; one listed known finding: warnings.catch_warnings), no set '
-                 'iteration (EFF-4), parser/normalizer/rule instances are per call (EFF-5). Absence of shared writes implies '
+                 'iteration (EFF-4), parser/normalizer/rule instances are per call (EFF-5); the keys of those memos cover every '
+                 'parameter the stored value depends on, case by case for `p or default` parameters (MEMO-1). Absence of shared writes implies '
                  'every interleaving yields the sequential result.',
         'note': _TB,
         'technique': 'effect analysis: shared-object inventory + alias tracking + reachability on the resolved call graph',
@@ -188,7 +197,8 @@ META = {
                  'MRO-resolved __init__ with the right roles and the name is public in parso.python.tree (TREE-3); every '
                  'assigned instance attribute is a slot or the class has a __dict__, no pickling hooks (TREE-4); parameter '
                  'grouping is idempotent (TREE-7); constructors set parents (TREE-1); RefactoringNormalizer reads no attribute '
-                 'only Normalizer.__init__ sets and returns mapped text or prefix+value (TREE-5, TREE-0). Equality of the '
+                 'only Normalizer.__init__ sets and returns mapped text or prefix+value (TREE-5, TREE-0); no value of an '
+                 'unpicklable kind is stored in a slot of a tree class (TREE-9). Equality of the '
                  'round-tripped tree as a value is not decided.',
         'note': _TB,
         'technique': 'signature binding of dump categories against resolved constructors + slot audit',
@@ -198,7 +208,8 @@ META = {
                  'of the indentation stack is guarded by the top node type, mirrored in the suite context manager, or the '
                  'else-half of a push/pop pair, and text-based bracket recognition is leaf-category safe (NORM-6); the prefix '
                  'splitter cannot fail on any tokenizer prefix (RX-1/2: the walk splits every prefix); issues are appended only '
-                 'under the (code,start) de-duplication (NORM-5); no tree writes / set iteration (EFF-2/4); 292 treats \\n and '
+                 'under the (code,start) de-duplication (NORM-5); no tree writes / set iteration (EFF-2/4), no shared write '
+                 'reachable from _get_normalizer_issues (EFF-1), tree memos reset by the incremental parser (TREE-6); 292 treats \\n and '
                  '\\r alike. Positions and equality across fresh/incremental/cached trees are not decided.',
         'note': _TB,
         'technique': 'definite assignment + call conformance + stack-discipline typestate rule + regular-language inclusion',
